@@ -5,6 +5,7 @@ import (
 	"fmt"
 	"strings"
 	"testing"
+	"unicode/utf8"
 
 	"github.com/bufbuild/protocompile/ast"
 	"github.com/bufbuild/protocompile/internal/verifmon/vlib"
@@ -70,34 +71,33 @@ func classifyBytes(src []byte) []string {
 			}
 			kind = "whitespace"
 		case c == '/' && i+1 < n && src[i+1] == '/':
+			// the lexer gives up on a comment at a NUL and resumes right after it
 			for i < n && src[i] != '\n' {
 				i++
+				if src[i-1] == 0 {
+					break
+				}
 			}
 			kind = "line-comment"
 		case c == '/' && i+1 < n && src[i+1] == '*':
-			j := bytes.Index(src[i+2:], []byte("*/"))
-			if j < 0 {
-				i = n
-			} else {
-				i += j + 4
-			}
-			kind = "block-comment"
-		case c == '"' || c == '\'':
-			// up to the closing quote, or up to and including the newline that
-			// cuts an unterminated literal short; a backslash pairs with the next byte
-			i++
-			for i < n && src[i] != c && src[i] != '\n' {
-				if src[i] == '\\' {
+			i += 2
+			for {
+				if i >= n {
+					break
+				}
+				if src[i] == 0 {
 					i++
+					break
+				}
+				if src[i] == '*' && i+1 < n && src[i+1] == '/' {
+					i += 2
+					break
 				}
 				i++
 			}
-			if i < n {
-				i++
-			}
-			if i > n {
-				i = n
-			}
+			kind = "block-comment"
+		case c == '"' || c == '\'':
+			i = scanStringLikeLexer(src, i)
 			kind = "string"
 		case isLetter(c):
 			for i < n && isWordy(src[i]) {
@@ -118,6 +118,82 @@ func classifyBytes(src []byte) []string {
 		}
 	}
 	return out
+}
+
+// scanStringLikeLexer returns the end of the string literal that starts at
+// src[i]: it follows the stable lexer's consumption rules (a newline ends the
+// scan and is consumed; \x takes one character unless it is the quote or a
+// backslash, then one more if it is a hex digit; \u / \U take up to 4 / 8
+// characters stopping before a quote or backslash; errors do not end the
+// scan). Used only to name the context of a position in signatures.
+func scanStringLikeLexer(src []byte, i int) int {
+	n := len(src)
+	q := rune(src[i])
+	j := i + 1
+	next := func() (rune, int) {
+		r, sz := utf8.DecodeRune(src[j:])
+		return r, sz
+	}
+	for j < n {
+		c, sz := next()
+		j += sz
+		if c == '\n' || c == q {
+			return j
+		}
+		if c != '\\' {
+			continue
+		}
+		if j >= n {
+			return n
+		}
+		e, sz := next()
+		j += sz
+		switch {
+		case e == 'x' || e == 'X':
+			if j >= n {
+				return n
+			}
+			c1, sz := next()
+			if c1 == q || c1 == '\\' {
+				continue
+			}
+			j += sz
+			if j >= n {
+				return n
+			}
+			c2, sz := next()
+			if c2 < 0x80 && isHexDigit(byte(c2)) {
+				j += sz
+			}
+		case e >= '0' && e <= '7':
+			for k := 0; k < 2; k++ {
+				if j >= n {
+					return n
+				}
+				c2, sz := next()
+				if c2 < '0' || c2 > '7' {
+					break
+				}
+				j += sz
+			}
+		case e == 'u' || e == 'U':
+			m := 4
+			if e == 'U' {
+				m = 8
+			}
+			for k := 0; k < m; k++ {
+				if j >= n {
+					return n
+				}
+				c2, sz := next()
+				if c2 == q || c2 == '\\' {
+					break
+				}
+				j += sz
+			}
+		}
+	}
+	return n
 }
 
 // byteClass names what sits at an offset of the input.
